@@ -225,6 +225,15 @@ def run(ctx):
         g, cmds = smtgen.gen_script(rng, nasserts=rng.choice([2, 3]), depth=rng.choice([2, 3]))
         ctexts.append(smtgen.script_text(cmds))
     corecorr.run(ctx, impl, common.Model(), rng, ctexts)
+    # ... and for Model/SmtlibRw.v (6 smtlib/boolean mutators, dispatch 100-106) and Model/ConstRw.v (9 bv/arithmetic/strings
+    # mutators, dispatch 110-118), each with its own targeted and malformed corpus
+    import morecorr1
+    import morecorr2
+    if ctx.thorough:
+        morecorr1.run(ctx, impl, common.Model(), rng, ctexts)
+    else:
+        morecorr1.run(ctx, impl, common.Model(), rng, ctexts[:12], nlogic=80, nquoted=80, nfuzz=150)
+    morecorr2.run(ctx, impl, common.Model(), rng, ctexts if ctx.thorough else ctexts[:12])
     ctx.extra['proposals_per_mutator'] = dict(sorted(per_mut.items()))
     ctx.extra['mutators_never_exercised'] = sorted(set(c for _, c, _ in P.all_mutators()) - set(per_mut))
     ctx.assumptions += ['inputs are well-sorted scripts of the typed generator and their partially reduced forms']
